@@ -25,10 +25,28 @@ SPACE = {
 }
 
 
+def lib_json(lib):
+    """equipment JSON of a library key; the example library gets dual-stage models built from advanced (polynomial NF)
+    stages in every position, which the shipped libraries do not contain"""
+    eq = c.eqpt_json(LIBS[lib])
+    if lib == 'example':
+        eq['Edfa'] += [
+            {'type_variety': 'adv_pre_low', 'type_def': 'advanced_model', 'gain_flatmax': 12, 'gain_min': 8, 'p_max': 21,
+             'advanced_config_from_json': 'std_medium_gain_advanced_config.json', 'out_voa_auto': False,
+             'allowed_for_design': False},
+            {'type_variety': 'dual_adv_adv', 'type_def': 'dual_stage', 'gain_min': 20, 'preamp_variety': 'adv_pre_low',
+             'booster_variety': 'Juniper_BoosterHG', 'allowed_for_design': False},
+            {'type_variety': 'dual_vg_adv', 'type_def': 'dual_stage', 'gain_min': 20, 'preamp_variety': 'std_low_gain',
+             'booster_variety': 'high_detail_model_example', 'allowed_for_design': False},
+            {'type_variety': 'dual_adv_vg', 'type_def': 'dual_stage', 'gain_min': 20, 'preamp_variety': 'adv_pre_low',
+             'booster_variety': 'std_medium_gain', 'allowed_for_design': False}]
+    return eq
+
+
 def models():
     out = []
     for lib, name in LIBS.items():
-        eq = c.eqpt_json(name)
+        eq = lib_json(lib)
         for e in eq['Edfa']:
             if e.get('type_def') == 'multi_band':
                 continue
@@ -195,14 +213,16 @@ def expected_nf(eq, ent, g_eff, pin_tot_dbm, nch, spacing, freqs, band):
         pin50 = pin_tot_dbm - lin2db(nch) + lin2db(50e9 / spacing)
     if td == 'dual_stage':
         p, b = lib_entry(eq, ent['preamp_variety']), lib_entry(eq, ent['booster_variety'])
-        if 'advanced_model' in (p.get('type_def'), b.get('type_def')):
+        adv_p = adv_config(p) if p.get('type_def') == 'advanced_model' else None
+        adv_b = adv_config(b) if b.get('type_def') == 'advanced_model' else None
+        if any(a is not None and 'nf_fit_coeff' not in a for a in (adv_p, adv_b)):
             return None
         g1 = p['gain_flatmax']
-        nf1 = nf_single(p, g1)
+        nf1 = nf_single(p, g1, adv=adv_p)
         # second stage: NF of the booster model at g2 (without padding: total padding is 0 for dual stage)
         g2 = g_eff - g1
         pad2 = max(b['gain_min'] - g2, 0.0)
-        nf2 = nf_single(b, g2)
+        nf2 = nf_single(b, g2, adv=adv_b)
         nf = lin2db(db2lin(nf1) + db2lin(nf2 - g1))
         return [nf] * len(freqs)
     if td == 'advanced_model':
@@ -234,7 +254,7 @@ def run_case(case):
 
     def v(fp, what, **kw):
         viol.append(dict(fingerprint=fp, what=what, observed=kw, case=case))
-    eq = c.eqpt_json(LIBS[case['lib']])
+    eq = lib_json(case['lib'])
     ent = lib_entry(eq, case['model'])
     if case['kind'] == 'sweep':
         return run_sweep(case, eq, ent, v, viol)
@@ -378,7 +398,7 @@ def main(rep, tier, seed):
     for lib, m in mods:
         for x in sp.enumerate(d):
             cases.append(dict(kind='amp', lib=lib, model=m, **{k: x[k] for k in SPACE}))
-        ent = lib_entry(c.eqpt_json(LIBS[lib]), m)
+        ent = lib_entry(lib_json(lib), m)
         if ent.get('type_def', 'variable_gain') == 'variable_gain':
             cases.append(dict(kind='sweep', lib=lib, model=m))
     results, stats = engine.run_pool('checks.c04', cases, horizon=120)
